@@ -167,6 +167,8 @@ fn main() {
         _ => {}
     }
     let code = props::dispatch(&a);
-    let _ = std::fs::remove_dir_all(e1::scratch_root());
+    if std::env::var_os("VERIF_KEEP").is_none() {
+        let _ = std::fs::remove_dir_all(e1::scratch_root());
+    }
     std::process::exit(code);
 }
